@@ -308,10 +308,13 @@ class ParseNeighbor(Section):
         Section.__init__(self, parser, scope, error)
         self._neighbors: list[bytes] = []
         self.neighbors: dict[str, Neighbor] = {}
+        # parsed neighbors not yet bound to their RIB: (neighbor, families its RIB is restricted to)
+        self._unbound: list[tuple[Neighbor, set[FamilyTuple] | None]] = []
 
     def clear(self) -> None:
         self._neighbors = []
         self.neighbors = {}
+        self._unbound = []
 
     def pre(self) -> bool:
         return self.parse(self.name, 'peer-address')
@@ -535,14 +538,13 @@ class ParseNeighbor(Section):
             # remove_self may well have side effects on route
             neighbor.routes.append(neighbor.resolve_self(route))
 
-    def _init_neighbor(self, neighbor: Neighbor, local: dict[str, Any]) -> None:
+    def _init_neighbor(
+        self, neighbor: Neighbor, local: dict[str, Any], rib_families: set[FamilyTuple] | None = None
+    ) -> None:
+        # The RIB of a neighbor is shared, by name, with the running session: nothing is written to it
+        # while the file is being parsed, the file may still turn out to be invalid (see activate)
+        self._unbound.append((neighbor, rib_families))
         families = neighbor.families()
-        for route in neighbor.routes:
-            # remove_self may well have side effects on route
-            route = neighbor.resolve_self(route)
-            if route.nlri.family().afi_safi() in families:
-                # This add the family to neighbor.families()
-                neighbor.rib.outgoing.add_to_rib_watchdog(route)
 
         for message in local.get('operational', {}).get('routes', []):
             if message.family().afi_safi() in families:
@@ -551,6 +553,20 @@ class ParseNeighbor(Section):
                 else:
                     neighbor.messages.append(message)
         self.neighbors[neighbor.name()] = neighbor
+
+    def activate(self) -> None:
+        """Bind the parsed neighbors to their RIB and queue their routes (the configuration is valid)."""
+        for neighbor, rib_families in self._unbound:
+            neighbor.make_rib()
+            if rib_families is not None:
+                neighbor.rib.outgoing.families = rib_families
+            families = neighbor.families()
+            for route in neighbor.routes:
+                # remove_self may well have side effects on route
+                route = neighbor.resolve_self(route)
+                if route.nlri.family().afi_safi() in families:
+                    neighbor.rib.outgoing.add_to_rib_watchdog(route)
+        self._unbound = []
 
     def post(self) -> bool:
         local = self._post_get_scope()
@@ -627,11 +643,8 @@ class ParseNeighbor(Section):
         if neighbor.capability.multi_session.is_enabled() and len(neighbor.families()) > 1:
             for family in neighbor.families():
                 m_neighbor = deepcopy(neighbor)
-                m_neighbor.make_rib()
-                m_neighbor.rib.outgoing.families = {family}
-                self._init_neighbor(m_neighbor, local)
+                self._init_neighbor(m_neighbor, local, {family})
         else:
-            neighbor.make_rib()
             self._init_neighbor(neighbor, local)
 
         local.clear()
